@@ -230,6 +230,10 @@ func (R *Repository) checkCrl(certificate *x509.Certificate, identifier string) 
 		repositoryEntry.entryLock.RLock()
 		defer repositoryEntry.entryLock.RUnlock()
 		if repositoryEntry.Loaded {
+			if repositoryEntry.CRLStore == nil {
+				//the store got lost by a failed update while this lookup was waiting for the entry, the status is unknown
+				return nil, errors.New("could not get revocation status from repository: crl store is not available")
+			}
 			status, err := repositoryEntry.CRLStore.GetCertRevocationStatus(issuerRDNSequence, certificate.SerialNumber)
 			if err != nil {
 				return nil, fmt.Errorf("could not get revocation status from repository: %v", err)
